@@ -135,12 +135,16 @@ def sem (h : Harmonic F) : F :=
   let m := h.mean
   div (mul (mul m m) h.recip.stdDev) (sqrt (Scalar.ofNat (h.recip.count - 1)))
 
+/-- reciprocal of a reciprocal-space bound; the part of the reciprocal-space interval at or below
+    zero corresponds to no harmonic mean, so `1/r` is read as `+∞` there -/
+def recipBound (r : F) : F := if gt r (zero : F) then div one r else posInf
+
 /-- `ci_mean`: arithmetic CI of the reciprocals at the flipped confidence, ends exchanged -/
 def ciMean (crit : Crit W) (h : Harmonic F) (conf : Confidence W) : Outcome (Err W) (Interval F) :=
   (h.recip.ciMean crit conf.flipped).bind fun ci =>
   let ext : Extremes F := ⟨negInf, posInf⟩
-  let lo := div one (@Interval.highX F ext ci)
-  let hi := div one (@Interval.lowX F ext ci)
+  let lo := recipBound (@Interval.highX F ext ci)
+  let hi := recipBound (@Interval.lowX F ext ci)
   intervalOfKind conf lo hi
 
 def ci (crit : Crit W) (conf : Confidence W) (xs : List F) : Outcome (Err W) (Interval F) :=
